@@ -1,4 +1,27 @@
 import Biogo.Properties.C20
 open Biogo.Properties.C20
+#print axioms accepted_sorted_disjoint
+#print axioms accepted_sorted_disjoint_add
+#print axioms exons_introns_tile
+#print axioms rejected_add_unchanged
+#print axioms add_never_writes_receiver
+#print axioms rejected_add_unchanged_history
+#print axioms pinned_rejected_add_corrupts
+#print axioms rejected_setExons_unchanged
+#print axioms rejected_update_unchanged_history
+#print axioms basePositionOf_eq
+#print axioms basePositionOf_tooLong
+#print axioms basePosition_additive
+#print axioms positionWithin_eq
+#print axioms positionWithin_absent
+#print axioms within_compose
+#print axioms basePosition_within
+#print axioms baseOrientationOf_eq
+#print axioms baseOrientation_multiplicative
+#print axioms orientationWithin_eq
+#print axioms orientationWithin_compose
+#print axioms utr_cds_tile
+#print axioms utr_orientation
 #print axioms oneToZero_zeroToOne
 #print axioms zeroToOne_oneToZero
+#print axioms oneToZero_zero
